@@ -45,6 +45,10 @@ def build_tree(tree, full, ctl_names=True):
     tree.write("maild/new/1", b"Subject: maildir one\n\nbody\n")
     tree.write("maild/cur/2:2,S", b"Subject: maildir two\n\nbody\n")
     tree.mkdir("maild/tmp")
+    # messages without any header line (listed as <no subject>, and there to be fetched)
+    tree.write("maild/new/3", b"\nonly a body\n")
+    tree.write("maild/new/4", b"")
+    tree.write("lists/bare.mbox", b"From a@b Sat Jan  5 09:43:01 2002\n\nbody without headers\n\nFrom c@d Sat Jan  5 09:44:01 2002\nSubject: second\n\nbody two\n\n")
     # long paths: three nested names of 80 two-byte characters (a percent-encoded URL of well over 1024 bytes), a name of 255 bytes
     tree.write("long/" + "\xe9" * 80 + "/" + "\xfc" * 80 + "/" + "\xf1" * 80 + "/deep.txt", b"deep\n")
     tree.write("long/" + "n" * 255, b"255\n")
